@@ -36,6 +36,8 @@ TEXTS["CC0-1.0"] = "CC0 " * 3000 + "\n"
 SENTINEL = "PRE-EXISTING CONTENT - must never change\n"
 FAIL_KINDS = [
     (5, {"kind": "http", "code": 404}), (3, {"kind": "http", "code": 500}), (4, {"kind": "urlerror"}),
+    (1, {"kind": "http", "code": 503}), (1, {"kind": "http", "code": 429}), (1, {"kind": "http", "code": 502}), (1, {"kind": "http", "code": 504}),
+    (1, {"kind": "http", "code": 403}), (1, {"kind": "status", "code": 206}),
     (3, {"kind": "timeout"}), (3, {"kind": "status", "code": 204}), (1, {"kind": "status", "code": 301}),
     (2, {"kind": "midbody", "exc": "IncompleteRead"}), (2, {"kind": "midbody", "exc": "reset"}),
     (1, {"kind": "midbody", "exc": "timeout"}), (1, {"kind": "notutf8"}),
